@@ -26,15 +26,15 @@ type planSeed struct {
 	Fields [][2]int `json:"fields"`
 	// TruncFrom: prefix lengths TruncFrom..len-1 are run from this seed (shorter prefixes are
 	// prefixes of an earlier seed of the same decoder and run there); -1: none.
-	TruncFrom int  `json:"trunc_from"`
+	TruncFrom int `json:"trunc_from"`
 	// Own: this shard runs the seed's control and truncations (and everything of an unstable seed).
 	// The dense and protobuf tree families of a stable seed are dealt to ALL shards in blocks of
 	// blockSize consecutive cases, so that one heavy seed does not make one shard the last to finish.
-	Own       bool `json:"own"`
-	Unstable  bool `json:"unstable"`
-	Dense     bool `json:"dense"`    // families subst and field
-	PB        bool `json:"pb"`       // protobuf tree, single mutations
-	PBPairs   bool `json:"pb_pairs"` // protobuf tree, pairs
+	Own      bool `json:"own"`
+	Unstable bool `json:"unstable"`
+	Dense    bool `json:"dense"`    // families subst and field
+	PB       bool `json:"pb"`       // protobuf tree, single mutations
+	PBPairs  bool `json:"pb_pairs"` // protobuf tree, pairs
 }
 
 // plan is the work of one shard; the parent builds it once (building the catalogue takes
